@@ -116,6 +116,13 @@ func (tr *Tr) call(fr *frame, site ssa.Value, cc *ssa.CallCommon, pos token.Pos)
 		}
 	}
 	if callee == nil {
+		if p, ok := cc.Value.(*ssa.Parameter); ok && fr.top && fr.contract != nil {
+			for _, hn := range fr.contract.Calls {
+				if hn == p.Name() {
+					return tr.paramCallback(fr, hn, args, rt, pos)
+				}
+			}
+		}
 		tr.vc.Unknown["dynamic call of "+shortTypeName(cc.Value.Type())]++
 		return tr.havocCall(fr, args, rt, true)
 	}
@@ -1230,6 +1237,102 @@ func (tr *Tr) contractModKeys(c *Contract, callee *ssa.Function, out map[string]
 	}()
 }
 
+// Definition side of `calls h`: the function under verification calls its own function parameter h.
+// Ghost state (kept across havoc like ghost maps): did h run, and what did it return. The ensures
+// clauses of the function see them as ran_h / res_h, exactly the names its callers are promised.
+func (tr *Tr) cbKeys(hn string, rt types.Type) (ranK, resK string) {
+	ranK, resK = "G_cbran_"+hn, "G_cbres_"+hn
+	tr.C.regHeap(ranK, "(Array Int Bool)")
+	if tup, ok := rt.(*types.Tuple); ok {
+		if tup.Len() != 1 {
+			return ranK, ""
+		}
+		rt = tup.At(0).Type()
+	}
+	tr.C.regHeap(resK, "(Array Int "+tr.C.sortOf(rt)+")")
+	return
+}
+
+func (tr *Tr) paramCallback(fr *frame, hn string, args []Val, rt types.Type, pos token.Pos) Val {
+	c := fr.contract
+	ranK, resK := tr.cbKeys(hn, rt)
+	ranOld := sel(tr.C.hget(fr.heap, ranK), "0")
+	tr.oblige(fr, "callback", "once:"+hn, "", fr.curReach, not(ranOld), pos, "the function parameter "+hn+" is called at most once")
+	for _, nn := range c.CallsNonNil {
+		if nn != hn {
+			continue
+		}
+		for _, a := range args {
+			if _, isIface := a.Ty.Underlying().(*types.Interface); isIface {
+				tr.oblige(fr, "callback", "nonnil:"+hn, "", fr.curReach, not(eq(app("i.typ", a.T), "0")), pos, hn+" is called with a non-nil argument (promised to callers)")
+			} else if refLike(a.Ty) {
+				tr.oblige(fr, "callback", "nonnil:"+hn, "", fr.curReach, not(eq(a.T, "0")), pos, hn+" is called with a non-nil argument (promised to callers)")
+			}
+		}
+	}
+	for _, ca := range c.CallArgs {
+		if ca.H != hn || ca.K >= len(args) {
+			continue
+		}
+		env := tr.entryEnv(fr)
+		env.heap, env.curA = fr.heap, tr.curA(fr)
+		env.names["cbarg"] = args[ca.K]
+		t, err := env.evalBool(ca.Cl.S)
+		if err != nil {
+			vfail("%s: callarg %s %d: %v", fr.fn, hn, ca.K, err)
+		}
+		tr.oblige(fr, "callback", "arg:"+hn, ca.Cl.Prop, fr.curReach, t, pos, "argument "+fmt.Sprint(ca.K)+" handed to "+hn+" is what callers are promised: "+ca.Cl.Text)
+	}
+	// h is arbitrary code: it may write any memory it can reach
+	ranArr := tr.C.hget(fr.heap, ranK)
+	resArr := ""
+	if resK != "" {
+		resArr = tr.C.hget(fr.heap, resK)
+	}
+	var r Val
+	if spec := c.CallFrame[hn]; spec != "" {
+		// assumed frame of the function value (reported as an assumption): havoc only what it may write
+		tr.vc.CallSite = append(tr.vc.CallSite, "assumed frame of the function parameter "+hn+" in "+shortFuncName(fr.fn)+": assigns "+spec)
+		env := tr.entryEnv(fr)
+		env.heap, env.old = fr.heap, fr.heap
+		fake := &Contract{Assigns: []string{spec}, HasAssigns: true, PkgPath: c.PkgPath}
+		tg := tr.assignTargets(fr, fake, env)
+		var ks []string
+		for k := range tg {
+			ks = append(ks, k)
+		}
+		sort.Strings(ks)
+		for _, k := range ks {
+			t := tg[k]
+			if k == "*" {
+				vfail("calls %s frame: * is the default, leave the frame out", hn)
+			}
+			if t.all {
+				fr.heap.m[k] = tr.declareConst(tr.C.heapSort[k], k+"_cb")
+				continue
+			}
+			cur := tr.C.hget(fr.heap, k)
+			for _, rr := range t.refs {
+				cur = sto(cur, rr, tr.declareConst(elemSortOfArray(tr.C.heapSort[k]), k+"_at"))
+			}
+			fr.heap.m[k] = tr.define(tr.C.heapSort[k], cur, k)
+		}
+		oldA := tr.curA(fr)
+		newA := tr.declareConst("Int", "A_call")
+		tr.assume("true", app(">=", newA, oldA))
+		fr.heap.m["ALLOC"] = newA
+		r = tr.freshResult(fr, rt, "ret_"+hn)
+	} else {
+		r = tr.havocCall(fr, args, rt, true)
+	}
+	fr.heap.m[ranK] = tr.define("(Array Int Bool)", sto(ranArr, "0", "true"), ranK)
+	if resK != "" && r.T != "" {
+		fr.heap.m[resK] = tr.define(tr.C.heapSort[resK], sto(resArr, "0", r.T), resK)
+	}
+	tr.vc.Abstract["call of the function parameter "+hn+" (arbitrary callee; ghost ran_"+hn+"/res_"+hn+")"]++
+	return r
+}
+
 // callback models "the callee may run its function argument hn once, on arbitrary well-formed
 // arguments". With a closure created in the calling function the closure is executed (by its
 // contract or inlined) under the fresh condition ran_hn; otherwise everything is havoc'd.
@@ -1261,6 +1364,45 @@ func (tr *Tr) callback(fr *frame, callee *ssa.Function, c *Contract, hn string, 
 		rt = sig.Results().At(0).Type()
 	}
 	if ci == nil {
+		// the function under verification forwards its OWN function parameter (which its contract says it
+		// `calls`): what the callee does with it counts as this function's call of the parameter
+		var fwd string
+		if cc != nil && fr.top && fr.contract != nil {
+			ai := idx
+			if cc.IsInvoke() {
+				ai = idx - 1
+			}
+			if ai >= 0 && ai < len(cc.Args) {
+				av := cc.Args[ai]
+				if ct, isCT := av.(*ssa.ChangeType); isCT { // func(...) passed as a named function type
+					av = ct.X
+				}
+				if p, ok := av.(*ssa.Parameter); ok {
+					for _, mine := range fr.contract.Calls {
+						if mine == p.Name() {
+							fwd = mine
+						}
+					}
+				}
+			}
+		}
+		if fwd != "" {
+			ranK, resK := tr.cbKeys(fwd, sig.Results())
+			ranArr := tr.C.hget(fr.heap, ranK)
+			resArr := ""
+			if resK != "" {
+				resArr = tr.C.hget(fr.heap, resK)
+			}
+			tr.oblige(fr, "callback", "once:"+fwd, "", fr.curReach, not(sel(ranArr, "0")), pos, "the function parameter "+fwd+" is handed on (and possibly called) at most once")
+			r := tr.havocCall(fr, nil, rt, true)
+			names["res_"+hn] = r
+			fr.heap.m[ranK] = tr.define("(Array Int Bool)", sto(ranArr, "0", ran), ranK)
+			if resK != "" && r.T != "" {
+				fr.heap.m[resK] = tr.define(tr.C.heapSort[resK], sto(resArr, "0", r.T), resK)
+			}
+			tr.vc.Abstract["function parameter "+fwd+" forwarded to "+c.Key]++
+			return
+		}
 		// unknown function value: it may do anything to the heap it can reach
 		tr.vc.Unknown["callback "+hn+" of "+c.Key]++
 		r := tr.havocCall(fr, nil, rt, true)
